@@ -101,6 +101,12 @@ impl<const K: usize> AffTree<K> {
         points: &Array2<f64>,
         n_iterations: usize,
     ) -> Option<(Array2<f64>, usize)> {
+        #[cfg(affinitree_verif)]
+        if !crate::linalg::verif_hook::mirror_passthrough() {
+            return crate::linalg::verif_hook::around_mirror(poly, points, n_iterations, |p, x, n| {
+                AffTree::<K>::mirror_points(p, x, n)
+            });
+        }
         assert_eq!(poly.indim(), points.shape()[0]);
 
         let poly_norm = poly.clone().normalize();
